@@ -566,6 +566,10 @@ def synthetic_impls():
         'IGNOREDMID': 'input(S,A,TE,B) output(Y) Y=MUX21(A,B,S)',
         'IGNOREDFIRST': 'input(X0,A,B) output(Y) Y=NAND2(A,B)',
         'TWOIGNORED': 'input(A,E1,B,E2) output(Y,Z) Y=XOR2(A,B) Z=INV1(B)',
+        'SAMEREADERTWICE': 'input(A,B) output(Y) Y=MUX21(A,B,A)',            # one cell reads the same input at two pins
+        'SAMEREADERALL': 'input(A) output(Y) Y=XOR2(A,A)',
+        'TWICEANDOTHER': 'input(A,B) output(Y,Z) Y=AO21(A,B,A) Z=INV1(A)',
+        'OUTREADTWICE': 'input(A,B) output(X,Y,Z) X=NAND2(A,B) Y=INV1(X) Z=AND2(X,B)',   # an output with two internal readers
     }
     out = {}
     for k, s in srcs.items():
